@@ -917,7 +917,7 @@ class DataType(object):
         try:
             for value in values:
                 value = value.encode('utf-8')
-                value += (b'=' * (len(value) % 4))
+                value += (b'=' * (-len(value) % 4))
                 base64.decodebytes(value)
                 normalized.add(value.decode('utf-8'))
         except (AttributeError, ValueError):
